@@ -230,12 +230,23 @@ func checkRep(c callCase) string {
 	for i := range c.Args {
 		canon = canon && canonicalReps(c.Args[i].value()) && canonicalReps(c.Args2[i].value())
 	}
+	if !canon {
+		// a filter argument that stringifies lets number text steer the call
+		for _, a := range c.Args {
+			if strings.Contains(a.F, "tostring") {
+				rec.Discard("rep/number-text-in-result")
+				return ""
+			}
+		}
+	}
 	if !canon && !textFree[s.Name] {
 		if textKeys[s.Name] {
 			rec.Discard("rep/number-text-in-result")
 			return ""
 		}
-		for _, v := range r1.Vals {
+		// number text can only surface in strings (a text consumer such as
+		// @base64d may also fail on one spelling and not on the other)
+		for _, v := range append(append([]any{}, r1.Vals...), r2.Vals...) {
 			if hasString(v) {
 				rec.Discard("rep/number-text-in-result")
 				return ""
@@ -278,15 +289,29 @@ var repFilters = []string{".", ".[]?", `if type == "number" then . + 1 else . en
 
 func repOptions(s *spec, pos int) []ropt {
 	out := make([]ropt, 0, len(repU)+len(repFilters))
+	pathArg := pos < len(s.Closure) && s.Closure[pos] && len(repFiltersFor(s)) != len(repFilters)
 	for i := range repU {
+		if pathArg {
+			break // a constant is a path only when it happens to equal the input
+		}
 		out = append(out, ropt{f: &repU[i]})
 	}
 	if pos < len(s.Closure) && s.Closure[pos] {
-		for _, f := range repFilters {
+		for _, f := range repFiltersFor(s) {
 			out = append(out, ropt{flt: f})
 		}
 	}
 	return out
+}
+
+// path(f), del(f), pick(f) take path expressions: whether a non-path filter
+// is rejected is decided by gojq comparing values (C02), not by a builtin.
+func repFiltersFor(s *spec) []string {
+	switch s.Name {
+	case "path", "del", "pick":
+		return []string{".", ".[]?", ".[0]?"}
+	}
+	return repFilters
 }
 
 // variants of a tuple of families: one position re-represented at a time
@@ -413,8 +438,8 @@ func runRep(t *testing.T) {
 		in1, in2 := genRepPair(t, "in")
 		c := callCase{Spec: s.ID, In: univ.V{X: in1}, In2: &univ.V{X: in2}}
 		for p := 0; p < s.Arity; p++ {
-			if p < len(s.Closure) && s.Closure[p] && rapid.Bool().Draw(t, "usefilter") {
-				f := rapid.SampledFrom(repFilters).Draw(t, "filter")
+			if p < len(s.Closure) && s.Closure[p] && (rapid.Bool().Draw(t, "usefilter") || len(repFiltersFor(s)) != len(repFilters)) {
+				f := rapid.SampledFrom(repFiltersFor(s)).Draw(t, "filter")
 				c.Args, c.Args2 = append(c.Args, flt(f)), append(c.Args2, flt(f))
 				continue
 			}
